@@ -63,6 +63,21 @@ Section facts.
       | VArr vs => eval_a f cx a src (VSlice st (repeat (zero e ZFUEL elem) (length vs))) (st + 1)
       | _ => Stuck
       end
+    | PEnum init t cases dflt =>
+      let* (old, st1) := match init with
+                         | None => Done (zero e ZFUEL t, st)
+                         | Some (ip, to_ptr) => let* (v0, s1) := eval_v f cx ip src st in
+                                                if to_ptr then Done (VPtr s1 v0, s1 + 1) else Done (v0, s1)
+                         end in
+      match src with
+      | VBasic z => match enum_action cases dflt z with
+                    | EASet v => Done (VBasic v, st1)
+                    | EAIgnore => Done (old, st1)
+                    | EAPanic => Panicked
+                    | EAError => Errored {| er_fn := ENUM_ERR; er_wraps := []; er_pending := [] |}
+                    end
+      | _ => Stuck
+      end
     end.
   Proof. destruct p; reflexivity. Qed.
 
@@ -299,7 +314,7 @@ Definition f_c10_1_table : table :=
                                     c_IgnoreMissing := false; c_SkipCopySameType := false; c_UseZeroValueOnPointerInconsistency := false;
                                     c_UseUnderlyingTypeMethods := false; c_DefaultUpdate := false; c_Enum_Enabled := true; c_Enum_Unknown := [];
                                     c_ArgContextRegex := [] |};
-                    m_fields := []; m_automap := []; m_raw_field_settings := false; m_UpdateTarget := false; m_constructor := None |};
+                    m_fields := []; m_automap := []; m_raw_field_settings := false; m_UpdateTarget := false; m_constructor := None; m_enum_map := []; m_enum_transforms := []; m_enum_excluded := [] |};
        g_origin := []; g_ctx := []; g_ret_err := false; g_body := Some (BVal (POfAssign (TPtr (TBasic 2)) (APtr PId))); g_types := [] |} ].
 Lemma zero_skip_through_call_refuted :
   eval_a [] f_c10_1_table [] 5 [] (AStruct [FAssign [70] (SelPath [(false, 0)] WNone) false (ASet (PCall 0))])
